@@ -415,11 +415,14 @@ def gen_sensitive_sequence(rng):
     {"template", "extras"} for SequenceE2ESurface"""
     x = gen_condition_template(rng, rng.randint(1, 3))
     t = x["template"]
-    kind = rng.choice(["pseudo", "pseudo", "undeclared", "declared"])
+    kind = rng.choice(["pseudo", "pseudo", "undeclared", "declared", "declared", "declared-nodefault"])
     if kind == "pseudo":
         K = rng.choice(PSEUDO_NAMES)
     elif kind == "undeclared":
         K = rng.choice(["Stage", "Z9", "Flavour"])
+    elif kind == "declared-nodefault":
+        K = "Knob"
+        t.setdefault("Parameters", {})["Knob"] = {"Type": rng.choice(["String", "CommaDelimitedList", "String"])}
     else:
         K = "Knob"
         t.setdefault("Parameters", {})["Knob"] = {"Type": "String", "Default": rng.choice(["v0", "v1"])}
@@ -439,7 +442,15 @@ def gen_sensitive_sequence(rng):
     seq = [dict(base, **{K: v}) for v in rng.sample([v1, v2, v1, "third"], rng.choice([2, 3, 4]))]
     if rng.random() < 0.4:
         seq.insert(rng.randrange(len(seq) + 1), dict(base))
-    return {"template": t, "extras": seq}
+    out = {"template": t, "extras": seq}
+    k = rng.random()
+    if k < 0.35:
+        # one dict of stack parameters, handed over again and again
+        out["extras"] = [seq[0]] * rng.choice([2, 3])
+        out["share"] = True
+    if rng.random() < 0.3:
+        out["fresh_models"] = True      # each call on a newly parsed model of the same template: only process-wide state is shared
+    return out
 
 
 class SequenceE2ESurface(E2ESurface):
@@ -453,9 +464,17 @@ class SequenceE2ESurface(E2ESurface):
         def run():
             m = pycfmodel.parse(copy.deepcopy(x["template"]))
             out = []
+            prev_src, prev_obj = None, None
             for e in x["extras"]:
+                if x.get("share") and prev_src == e:
+                    arg = prev_obj          # the caller hands over the very same dict object again
+                else:
+                    arg = copy.deepcopy(e)
+                prev_src, prev_obj = e, arg
+                if x.get("fresh_models"):
+                    m = pycfmodel.parse(copy.deepcopy(x["template"]))
                 try:
-                    d = m.resolve(copy.deepcopy(e)).model_dump()
+                    d = m.resolve(arg).model_dump()
                     out.append({"Conditions": resgen.to_wire(d["Conditions"]), "Resources": resgen.to_wire(d["Resources"])})
                 except Exception as ex:      # noqa
                     out.append({"error": True})
@@ -474,5 +493,8 @@ class SequenceE2ESurface(E2ESurface):
     def agree(self, x, i, m):
         return core.Surface.agree(self, x, i, m)
 
+    frozen = frozenset({"share", "fresh_models"})
+
     def tags(self, x):
-        return E2ESurface.tags(self, {"template": x["template"], "extra": {}}) | {"sequence"}
+        return (E2ESurface.tags(self, {"template": x["template"], "extra": {}}) | {"sequence"}
+                | ({"shared-dict"} if x.get("share") else set()) | ({"fresh-models"} if x.get("fresh_models") else set()))
